@@ -1129,6 +1129,12 @@ func (c *Compiler) lowerCurrentOpcode() {
 			break
 		}
 
+		// The length in bytes of a 65536-page memory (1<<32) does not fit in 32 bits.
+		lenType := ssa.TypeI32
+		if c.memoryLenNeeds64bit {
+			lenType = ssa.TypeI64
+		}
+
 		var memSizeInBytes ssa.Value
 		if c.offset.LocalMemoryBegin < 0 {
 			memInstPtr := builder.AllocateInstruction().
@@ -1137,23 +1143,34 @@ func (c *Compiler) lowerCurrentOpcode() {
 				Return()
 
 			memSizeInBytes = builder.AllocateInstruction().
-				AsLoad(memInstPtr, memoryInstanceBufSizeOffset, ssa.TypeI32).
+				AsLoad(memInstPtr, memoryInstanceBufSizeOffset, lenType).
 				Insert(builder).
 				Return()
 		} else {
 			memSizeInBytes = builder.AllocateInstruction().
-				AsLoad(c.moduleCtxPtrValue, c.offset.LocalMemoryLen().U32(), ssa.TypeI32).
+				AsLoad(c.moduleCtxPtrValue, c.offset.LocalMemoryLen().U32(), lenType).
 				Insert(builder).
 				Return()
 		}
 
 		amount := builder.AllocateInstruction()
-		amount.AsIconst32(uint32(wasm.MemoryPageSizeInBits))
+		if c.memoryLenNeeds64bit {
+			amount.AsIconst64(uint64(wasm.MemoryPageSizeInBits))
+		} else {
+			amount.AsIconst32(uint32(wasm.MemoryPageSizeInBits))
+		}
 		builder.InsertInstruction(amount)
 		memSize := builder.AllocateInstruction().
 			AsUshr(memSizeInBytes, amount.Return()).
 			Insert(builder).
 			Return()
+		if c.memoryLenNeeds64bit {
+			// The number of pages (at most 65536) fits in i32.
+			memSize = builder.AllocateInstruction().
+				AsIreduce(memSize, ssa.TypeI32).
+				Insert(builder).
+				Return()
+		}
 		state.push(memSize)
 
 	case wasm.OpcodeMemoryGrow:
@@ -4003,6 +4020,9 @@ func (c *Compiler) getMemoryLenValue(forceReload bool) ssa.Value {
 			lenOffset := builder.AllocateInstruction().AsIconst64(c.offset.LocalMemoryLen().U64()).Insert(builder).Return()
 			addr := builder.AllocateInstruction().AsIadd(c.moduleCtxPtrValue, lenOffset).Insert(builder).Return()
 			load.AsAtomicLoad(addr, 8, ssa.TypeI64)
+		} else if c.memoryLenNeeds64bit {
+			// The length in bytes of a 65536-page memory (1<<32) does not fit in 32 bits.
+			load.AsLoad(c.moduleCtxPtrValue, c.offset.LocalMemoryLen().U32(), ssa.TypeI64)
 		} else {
 			load.AsExtLoad(ssa.OpcodeUload32, c.moduleCtxPtrValue, c.offset.LocalMemoryLen().U32(), true)
 		}
